@@ -427,7 +427,7 @@ func c03FlagImpliesNoError(w *World, ns *ssa.Function, fTls, fErr *types.Var) st
 			return w.isResultOf(resolveLoad(y), 0, "xmpp.Transport.StartTLS") || w.isResultOf(y, 0, "xmpp.Transport.StartTLS")
 		})
 		if len(cut) == 0 || reachable(entryLoc(fn), func(in ssa.Instruction) bool { return in == a.Instr }, nil, cut) {
-			return "TlsEnabled is set to true without Transport.StartTLS() having returned nil (" + w.ipos(a.Instr) + ")"
+			return fmt.Sprintf("TlsEnabled is set to true without Transport.StartTLS() having returned nil (%s; %d edge(s) assert its success)", w.ipos(a.Instr), len(cut))
 		}
 	}
 	if nTrue == 0 {
